@@ -330,7 +330,11 @@ func strictlyLater(prev time.Time) time.Time {
 
 // runHistoryAPI drives a fresh sessionTracker with the history, op by op, and
 // records what reached the encoder during each op next to the model's answer.
-func runHistoryAPI(h history, rec *Rec) corrTrace {
+func runHistoryAPI(h history, rec *Rec) corrTrace { return runHistoryAPIOpt(h, rec, false) }
+
+// runHistoryAPIOpt: with skipClean the cleanup operations are not executed
+// (metamorphic reference for C16).
+func runHistoryAPIOpt(h history, rec *Rec, skipClean bool) corrTrace {
 	if rec == nil {
 		rec = &Rec{}
 	}
@@ -358,6 +362,9 @@ func runHistoryAPI(h history, rec *Rec) corrTrace {
 		case "open", "ev", "disp", "noise":
 			err = tr.AuditdEvent(apiEvent(i, o))
 		case "clean":
+			if skipClean {
+				break
+			}
 			var cut time.Time
 			switch {
 			case o.Cut < 0:
@@ -584,6 +591,85 @@ func traceErrors(ct corrTrace) error {
 	for i, st := range ct.Steps {
 		if st.Err != nil {
 			return fmt.Errorf("step %d (%s) returned error %v; history: %s", i, ct.H.Ops[i], st.Err, ct.H)
+		}
+	}
+	return nil
+}
+
+
+// oracleC16 isolates the cleanup semantics (metamorphic): ctA ran the history,
+// ctB ran the same history with the cleanup calls left out. A pending half that
+// the cut-off rules say must be discarded (uncorrelated and older than the
+// cut-off) yields nothing for its session, ever; every other session must
+// behave exactly as without cleanup (cleanup never discards a younger or a
+// correlated entry). Whether correlation itself is right is not judged here.
+func oracleC16(ctA, ctB corrTrace) error {
+	h := ctA.H
+	m := newCorrModel()
+	discardedSes := map[int]int{} // session -> step of the cleanup that discards it
+	discardedPID := map[int]int{}
+	for i, o := range h.Ops {
+		if o.K == "clean" {
+			beforeS := map[int]bool{}
+			for s := range m.sess {
+				beforeS[s] = true
+			}
+			beforeP := map[int]bool{}
+			for p := range m.waiting {
+				beforeP[p] = true
+			}
+			m.step(i, normCut(o, i), h.Ops)
+			for s := range beforeS {
+				if _, still := m.sess[s]; !still {
+					discardedSes[s] = i
+				}
+			}
+			for p := range beforeP {
+				if _, still := m.waiting[p]; !still {
+					discardedPID[p] = i
+				}
+			}
+			continue
+		}
+		m.step(i, o, h.Ops)
+	}
+	pidOf := firstOpen(h)
+	perSes := func(ct corrTrace, upto int) map[int][]int {
+		out := map[int][]int{}
+		for i := 0; i <= upto && i < len(ct.Steps); i++ {
+			for _, a := range ct.Steps[i].Actual {
+				if s, ok := sesNumber(a.Ses); ok {
+					out[s] = append(out[s], a.Ev)
+				}
+			}
+		}
+		return out
+	}
+	for i := range h.Ops {
+		a, b := perSes(ctA, i), perSes(ctB, i)
+		sessions := map[int]bool{}
+		for s := range a {
+			sessions[s] = true
+		}
+		for s := range b {
+			sessions[s] = true
+		}
+		for s := range sessions {
+			k, dS := discardedSes[s]
+			k2, dP := discardedPID[pidOf[s]]
+			switch {
+			case dS || dP:
+				if len(a[s]) > 0 {
+					if !dS {
+						k = k2
+					}
+					return fmt.Errorf("after step %d (%s): session s%d emitted events %v although its pending half was older than the cut-off of the cleanup at step %d and uncorrelated (it must be discarded, the held events dropped, not emitted late); history: %s", i, h.Ops[i], s, a[s], k, h)
+				}
+			default:
+				if !intsEqual(a[s], b[s]) {
+					return fmt.Errorf("after step %d (%s): session s%d emitted %v with the cleanup calls and %v without them, although no cut-off applies to it (cleanup must not discard a younger or a correlated entry); history: %s", i, h.Ops[i], s, a[s], b[s], h)
+				}
+			}
 		}
 	}
 	return nil
